@@ -191,7 +191,7 @@ def _region_map(a_items, b_items, sub_names):
         # main region = everything not inside a subroutine body; bodies start at their label and end
         # before the next subroutine label / main_start
         for i, it in enumerate(items):
-            if it[0] == "L" and (it[1] in sub_names or it[1] == "checker"):
+            if it[0] == "L" and (it[1] in sub_names or it[1] in ("checker", "approve_end")):
                 cur = it[1]
                 regs[cur] = []
             elif it[0] == "L" and it[1] == "main_start":
@@ -221,7 +221,8 @@ def _region_map(a_items, b_items, sub_names):
 
 @st.composite
 def rewrite_case(draw, disabled=()):
-    p = draw(semantic_program(profile="modelled", disabled=disabled, with_ast=True))
+    # the intcblock stays in the entry block under every rewrite (the property names the entry-block form)
+    p = draw(semantic_program(profile="modelled", disabled=tuple(disabled) + ("intcblock_not_in_entry_block",), with_ast=True))
     rw = draw(st.lists(st.sampled_from(KINDS), min_size=1, max_size=5, unique=True))
     choices = [draw(st.integers(0, 50)) for _ in range(7)]
     return {"prog": p, "rewrites": rw, "choices": choices}
